@@ -961,7 +961,14 @@ def do_attributes(part, start, end):
 
     # for o in part.iter_all(score.Divisions, start, end):
     #     by_start[o.start.t].append(o)
+    q_table = part.quarter_durations()
     for t, quarter in part.quarter_durations(start.t, end.t):
+        # an entry that repeats the value in force before it (left behind
+        # when Part.set_quarter_duration replaces a value) is no change of
+        # divisions: the importer drops it, so do not write it
+        earlier = q_table[q_table[:, 0] < t, 1]
+        if len(earlier) > 0 and earlier[-1] == quarter:
+            continue
         by_start[t].append(int(quarter))
     for o in part.iter_all(score.KeySignature, start, end):
         by_start[o.start.t].append(o)
